@@ -81,6 +81,15 @@ pub fn hit(tag: u8) {
         L::n += 1;
     }
 }
+/// `hit`, and note whether the action runs outside every read section of the
+/// registry's data lock (then a concurrent removal cannot know it is running).
+pub static mut RAN_OUTSIDE_SECTION: bool = false;
+pub fn hit_in_section(tag: u8) {
+    if reg::data_readers() == 0 {
+        unsafe { RAN_OUTSIDE_SECTION = true };
+    }
+    hit(tag);
+}
 pub fn clear_log() {
     unsafe { L::n = 0 }
 }
